@@ -280,6 +280,18 @@ func DerivesFrom(v ssa.Value, src func(ssa.Value) bool) bool {
 	return derives(v, src, map[ssa.Value]bool{}, 0)
 }
 
+// derivesStop, when set, cuts the derivation at values it accepts (used by DerivesFromStop).
+var derivesStop func(ssa.Value) bool
+
+// DerivesFromStop is DerivesFrom that does not look behind values accepted by stop
+// (for example a copying call: what it returns does not alias what it was given).
+func DerivesFromStop(v ssa.Value, src, stop func(ssa.Value) bool) bool {
+	old := derivesStop
+	derivesStop = stop
+	defer func() { derivesStop = old }()
+	return derives(v, src, map[ssa.Value]bool{}, 0)
+}
+
 func derives(v ssa.Value, src func(ssa.Value) bool, seen map[ssa.Value]bool, d int) bool {
 	if v == nil || seen[v] || d > 40 {
 		return false
@@ -287,6 +299,9 @@ func derives(v ssa.Value, src func(ssa.Value) bool, seen map[ssa.Value]bool, d i
 	seen[v] = true
 	if src(v) {
 		return true
+	}
+	if derivesStop != nil && derivesStop(v) {
+		return false
 	}
 	switch x := v.(type) {
 	case *ssa.Phi:
